@@ -50,17 +50,21 @@ L0RetentionResult(thr) ==
       del == IF processedAll /\ del0 # {} /\ Len(s) \in del0 THEN del0 \ {Len(s)} ELSE del0
   IN IF maxL1 = 0 THEN {} ELSE {s[i] : i \in del}
 
+\* what Compactor.Compact(d) does: [ok, nf] (ok = there is something to compact and ltx.Compactor accepts the inputs)
+CompactOut(d) ==
+  LET prev == IF cache[d] # None THEN cache[d] ELSE MaxFileAt(d)
+      seek == prev.max + 1
+      src  == SelectSeq(LevelSeq(d - 1), LAMBDA f : f.min >= seek)
+  IN [ok |-> /\ Len(src) > 0
+             /\ \A i \in 2..Len(src) : src[i].min <= src[i-1].max + 1 /\ src[i].max > src[i-1].max,   \* ltx.Compactor contiguity check
+      nf |-> IF Len(src) = 0 THEN None ELSE [lvl |-> d, min |-> src[1].min, max |-> Last(src).max, ts |-> Last(src).ts]]
+
 Compact(d) ==
   /\ d \in {1, 2}
-  /\ LET prev == IF cache[d] # None THEN cache[d] ELSE MaxFileAt(d)
-         seek == prev.max + 1
-         src  == SelectSeq(LevelSeq(d - 1), LAMBDA f : f.min >= seek)
-     IN /\ Len(src) > 0
-        /\ \A i \in 2..Len(src) : src[i].min <= src[i-1].max + 1 /\ src[i].max > src[i-1].max   \* ltx.Compactor contiguity check
-        /\ LET nf == [lvl |-> d, min |-> src[1].min, max |-> Last(src).max, ts |-> Last(src).ts]
-               r1 == remote \cup {nf}
-           IN /\ cache' = [cache EXCEPT ![d] = nf]
-              /\ remote' = r1     \* L0 retention after L1 compaction is modelled as its own action
+  /\ CompactOut(d).ok
+  /\ LET nf == CompactOut(d).nf IN
+       /\ cache' = [cache EXCEPT ![d] = nf]
+       /\ remote' = remote \cup {nf}     \* L0 retention after L1 compaction is modelled as its own action
   /\ UNCHANGED <<pos, clock, hadSnap, tsOf, l0ret, sret>>
 
 Snapshot ==
@@ -77,17 +81,21 @@ RetByTXID(files, l, floor) ==
       del == IF del0 # {} /\ Len(s) \in del0 THEN del0 \ {Len(s)} ELSE del0
   IN {s[i] : i \in del}
 
+\* the replica after snapshot retention with cut-off `cut` + the cascade below the oldest kept snapshot
+SnapRetentionOut(cut) ==
+  LET s == LevelSeq(9)
+      del0 == {i \in 1..Len(s) : s[i].ts < cut}
+      del == IF del0 # {} /\ Len(s) \in del0 THEN del0 \ {Len(s)} ELSE del0
+      kept == (1..Len(s)) \ del
+      firstKept == IF kept = {} THEN 0 ELSE CHOOSE i \in kept : \A j \in kept : i <= j
+      floor == IF firstKept > 1 THEN s[firstKept - 1].max ELSE 0
+      r1 == IF RetentionEnabled THEN remote \ {s[i] : i \in del} ELSE remote
+      r2 == IF RetentionEnabled THEN r1 \ RetByTXID(r1, 1, floor) ELSE r1
+      r3 == IF RetentionEnabled THEN r2 \ RetByTXID(r2, 2, floor) ELSE r2
+  IN r3
+
 SnapRetention(cut) ==
-  /\ LET s == LevelSeq(9)
-         del0 == {i \in 1..Len(s) : s[i].ts < cut}
-         del == IF del0 # {} /\ Len(s) \in del0 THEN del0 \ {Len(s)} ELSE del0
-         kept == (1..Len(s)) \ del
-         firstKept == IF kept = {} THEN 0 ELSE CHOOSE i \in kept : \A j \in kept : i <= j
-         floor == IF firstKept > 1 THEN s[firstKept - 1].max ELSE 0
-         r1 == IF RetentionEnabled THEN remote \ {s[i] : i \in del} ELSE remote
-         r2 == IF RetentionEnabled THEN r1 \ RetByTXID(r1, 1, floor) ELSE r1
-         r3 == IF RetentionEnabled THEN r2 \ RetByTXID(r2, 2, floor) ELSE r2
-     IN remote' = r3
+  /\ remote' = SnapRetentionOut(cut)
   /\ sret' = TRUE
   /\ UNCHANGED <<pos, cache, clock, hadSnap, tsOf, l0ret>>
 
